@@ -471,6 +471,7 @@ pub fn run(tier: Tier) -> i32 {
             n_thorough: 4000,
             tune: &|p: &mut Profile| {
                 p.wsdl = 0;
+                p.xml_lang = 1;
             },
             only: None,
             extra: None,
